@@ -1202,10 +1202,10 @@ def run(ctx):
     stats = {}
 
     # 2. (a1) every line, (a2) every file, the large files
-    nv = replay_lines(ctx, lcases, table, quick, stats)
+    nv = replay_lines(ctx, lcases * (1 if quick else 2), table, quick, stats)
     tm["replay_lines"] = round(time.time() - t_, 1)
     t_ = time.time()
-    nv += replay_files(ctx, fcases, lib, quick, stats)
+    nv += replay_files(ctx, fcases * (2 if quick else 4), lib, quick, stats)       # (every repetition draws new templates / forms)
     tm["replay_files"] = round(time.time() - t_, 1)
     t_ = time.time()
     nv += replay_files(ctx, bcases, lib, quick, stats, big=True)
